@@ -1130,6 +1130,12 @@ pub mod child {
       drain_events(m, &mut obs, Duration::from_millis(100)).await;
     }
     obs.events.remove("Disconnected");
+    if cut || !matches!(tail, FeedTail::Sentinel) {
+      // a connection that is poisoned right behind the handshake can die before the socket core
+      // has registered it; whether HandshakeSucceeded is still emitted then is a race inside
+      // either backend, not a difference between them
+      obs.events.remove("HandshakeSucceeded");
+    }
     let _ = pull.close().await;
     let _ = tokio::time::timeout(Duration::from_secs(10), ctx.term()).await;
     obs
